@@ -136,7 +136,7 @@ def check_C11(ctx):
 # ------------------------------------------------------------------- C12
 def check_C12(ctx):
     ctx.model_check("MC_Store.tla", q(ctx, "MC_Store_map.cfg", "MC_Store_map_thorough.cfg"))
-    seq_traces(ctx, "colls", q(ctx, 8, 16), q(ctx, 12, 60), q(ctx, 150, 400), {"C12", "C02"})
+    seq_traces(ctx, "colls", q(ctx, 8, 16), q(ctx, 12, 60), q(ctx, 150, 400), {"C12", "C02"}, extra=["-obsctx", "C12"])
     return ctx.finish("model_checking",
                       "exhaustive: MC_Store with SetCollection/RemoveCollection; conformance: random histories interleaving SetCollection "
                       "(new and existing names), RemoveCollection, GetCollectionNames and item mutations with flushes, reopens and "
@@ -367,8 +367,8 @@ def check_C07(ctx):
     def one(i):
         seed = ctx.seed * 1000 + i
         out = os.path.join(ctx.work, "fault-%d.ndjson" % i)
-        args = ["fault", "-seed", seed, "-n", q(ctx, 1, 4), "-steps", q(ctx, 30, 60), "-out", out,
-                "-alltorn", q(ctx, 0, 128), "-maxvar", q(ctx, 250, 1500), "-prop", ctx.prop]
+        args = ["fault", "-seed", seed, "-n", q(ctx, 1, 2), "-steps", q(ctx, 30, 60), "-out", out,
+                "-alltorn", q(ctx, 0, 64), "-maxvar", q(ctx, 250, 600), "-prop", ctx.prop]
         st, poisoned = ctx.drive(args, timeout=2400)
         # every history here contains one injected fault: any later deviation
         # ("behaves as if the failed call had never been made") counts for C07
@@ -502,7 +502,10 @@ def check_C05(ctx):
     # every complete interleaving (at yield-point granularity) of small programs,
     # generated by TLC from Sched.tla and executed under the token scheduler
     sched_replay(ctx, "12", 1, 2)
+    # a collection emptied out (and refilled) under a pinned reader: delete, delete, set, set
+    sched_replay(ctx, "2222", 1, 2, nflush=0, ops="ddss", init=2)
     if ctx.tier == "thorough":
+        sched_replay(ctx, "2222", 2, 1, nflush=0, ops="ddss", init=2)
         sched_replay(ctx, "121", 1, 2)
         sched_replay(ctx, "12", 2, 1)
     ctx.coverage_extra["free_running_runs"] = free_runs
@@ -523,26 +526,26 @@ def check_C05(ctx):
                                        "by-design unsynchronised accesses (itemLocMutex = false) are outside the specification"])
 
 
-def sched_cfg(prog, nreaders, reads):
+def sched_cfg(prog, nreaders, reads, nflush=1):
     return """CONSTANTS
   Colls = {1, 2}
   NReaders = %d
   MutProg <- %s
-  NFlush = 1
+  NFlush = %d
   SortedPins = TRUE
   ReadsPerReader = %d
 SPECIFICATION SSpec
 INVARIANTS ReadsOneVersion NoLostUpdate FlushOrder
 CONSTRAINT Emit
 CHECK_DEADLOCK FALSE
-""" % (nreaders, {"12": "Prog2", "121": "Prog3"}[prog], reads)
+""" % (nreaders, {"12": "Prog2", "121": "Prog3", "2222": "Prog2222"}[prog], nflush, reads)
 
 
-def sched_replay(ctx, prog, nreaders, reads, limit=None):
+def sched_replay(ctx, prog, nreaders, reads, limit=None, nflush=1, ops="", init=3):
     """All complete interleavings of the grants of Sched.tla for a small
     program, executed on the real library under the token scheduler."""
     h = os.path.join(ctx.work, "sched-%s-%d-%d.jsonl" % (prog, nreaders, reads))
-    n = ctx.generate("MC_Sched.tla", "sched.cfg", sched_cfg(prog, nreaders, reads), h, limit=limit, timeout=1800)
+    n = ctx.generate("MC_Sched.tla", "sched.cfg", sched_cfg(prog, nreaders, reads, nflush), h, limit=limit, timeout=1800)
     lines = open(h).read().splitlines()
     nchunks = 8
     def one(c):
@@ -553,7 +556,9 @@ def sched_replay(ctx, prog, nreaders, reads, limit=None):
         open(inp, "w").write("\n".join(part) + "\n")
         out = inp.replace(".jsonl", ".ndjson")
         args = ["sched", "-seed", ctx.seed * 100000 + c * 10000, "-in", inp, "-out", out, "-prog", prog,
-                "-readers", nreaders, "-reads", reads]
+                "-readers", nreaders, "-reads", reads, "-init", init]
+        if ops:
+            args += ["-ops", ops]
         st, poisoned = ctx.drive(args, timeout=2400)
         ctx.validate(out, {"C05"}, module="Trace_Conc.tla", cfg="Trace_Conc.cfg",
                      cmdline=" ".join(map(str, [ctx.bin] + args)), timeout=2400)
